@@ -2,12 +2,13 @@
 # seed_import.sh <src-dir> <patchname> <dest-id>: rebase a sub-agent's patch (made against the pinned snapshot)
 # onto /repo HEAD (hooks + fixes) and store it as /verif/seeded/<dest-id>/patch.diff. On conflicts the tree
 # is left for manual resolution; run `seed_import.sh --finish <dest-id>` afterwards.
+REPO="${SEED_REPO:-/repo}"
 if [ "$1" = "--finish" ]; then
-  cd /repo && git reset -q && git diff > /verif/seeded/$2/patch.diff && git reset -q --hard HEAD && git clean -fdq src unimock_macros && echo "stored /verif/seeded/$2/patch.diff ($(wc -l < /verif/seeded/$2/patch.diff) lines)"; exit 0
+  cd $REPO && git reset -q && git diff > /verif/seeded/$2/patch.diff && git reset -q --hard HEAD && git clean -fdq src unimock_macros && echo "stored /verif/seeded/$2/patch.diff ($(wc -l < /verif/seeded/$2/patch.diff) lines)"; exit 0
 fi
 SRC="$1"; P="$2"; ID="$3"
 mkdir -p /verif/seeded/$ID
-cd /repo && git reset -q --hard HEAD
+cd $REPO && git reset -q --hard HEAD
 git apply --3way "$SRC/$P.diff" >/dev/null 2>&1
 if git diff --name-only --diff-filter=U | grep -q .; then echo "CONFLICTS in: $(git diff --name-only --diff-filter=U | tr '\n' ' ') -- resolve, then: seed_import.sh --finish $ID"; exit 1; fi
 git reset -q && git diff > /verif/seeded/$ID/patch.diff && git reset -q --hard HEAD && git clean -fdq src unimock_macros
